@@ -25,6 +25,8 @@ const (
 )
 
 type referrerKey struct {
+	repo         string // pages are only served to the repository and subject they were generated for
+	subject      string
 	dig          digest.Digest
 	artifactType string
 }
@@ -65,7 +67,7 @@ func (s *Server) referrerGet(repoStr, arg string) http.HandlerFunc {
 				_ = types.ErrRespJSON(w, types.ErrInfoUnsupported("requested digest is not valid"))
 				return
 			}
-			if cacheResp, err := s.referrerCache.Get(referrerKey{dig: dig, artifactType: filterAT}); err == nil && page < len(cacheResp) {
+			if cacheResp, err := s.referrerCache.Get(referrerKey{repo: repoStr, subject: arg, dig: dig, artifactType: filterAT}); err == nil && page < len(cacheResp) {
 				if filterAT != "" {
 					w.Header().Add(referrerFilterATHeaderKey, referrerFilterATHeaderValue)
 				}
@@ -107,7 +109,7 @@ func (s *Server) referrerGet(repoStr, arg string) http.HandlerFunc {
 			return
 		}
 		// check page cache for digest, two users requesting same referrer list
-		if cacheResp, err := s.referrerCache.Get(referrerKey{dig: d.Digest, artifactType: filterAT}); err == nil {
+		if cacheResp, err := s.referrerCache.Get(referrerKey{repo: repoStr, subject: arg, dig: d.Digest, artifactType: filterAT}); err == nil {
 			if filterAT != "" {
 				w.Header().Add(referrerFilterATHeaderKey, referrerFilterATHeaderValue)
 			}
@@ -166,7 +168,7 @@ func (s *Server) referrerGet(repoStr, arg string) http.HandlerFunc {
 				return
 			}
 			// cache the split
-			s.referrerCache.Set(referrerKey{dig: d.Digest, artifactType: filterAT}, split)
+			s.referrerCache.Set(referrerKey{repo: repoStr, subject: arg, dig: d.Digest, artifactType: filterAT}, split)
 			// set the requested page output and next link
 			if page > 0 && (cacheDig != d.Digest.String() || page >= len(split)) {
 				page = 0
@@ -182,7 +184,7 @@ func (s *Server) referrerGet(repoStr, arg string) http.HandlerFunc {
 			out = split[page]
 		} else {
 			// cache the result
-			s.referrerCache.Set(referrerKey{dig: d.Digest, artifactType: filterAT}, [][]byte{out})
+			s.referrerCache.Set(referrerKey{repo: repoStr, subject: arg, dig: d.Digest, artifactType: filterAT}, [][]byte{out})
 		}
 		w.Header().Add("content-length", fmt.Sprintf("%d", len(out)))
 		w.WriteHeader(http.StatusOK)
